@@ -25,6 +25,11 @@
  *     err:<r>:<code>                    the handler of r answers with this code from now on (0 = 2.05)
  *     lost:<c>                          coap_session_disconnected() on the server session of c
  *     del:<r>                           coap_delete_resource(), then the resource is created again
+ *     big:<r>:<n>                       bodies of r are n bytes from now on (large response API); with
+ *                                       'x' = 23=_ (Block2 0/0/16 bytes) in the registration they take
+ *                                       several blocks
+ *     blk:<c>:<r>:<q>:<tok>:<t>:<num>   observer c fetches block num >= 1 (GET, Block2 num/0/0, no Observe)
+ *     (reg/can: t = type + 2 * z sends the Observe value with z leading zero bytes, e.g. 00 01)
  *     idle                              400 s pass, then one turn of the I/O loop
  *     init:<r>:<v>                      coap_persist_set_observe_num(r, v) (only before the first
  *                                       registration: a server restarting from persisted state)
@@ -33,14 +38,16 @@
  *   K non=<COAP_OBS_MAX_NON> fail=<COAP_OBS_MAX_FAIL>
  *   [<op>  ...                   start of an op (for ack/rst: [ack:<c>:<j>=<k> with the index k of the
  *                                datagram that is answered, or =none)
- *   S<ca0>,<ca1>,<ca2>,<ca3>     coap_check_notify_lkd() is entered; con_active of the session of
- *                                each observer ('-': no session)                      (wrapped)
+ *   S<ca0>,<ca1>,<ca2>,<ca3>~<l0><l1><l2><l3>
+ *                                coap_check_notify_lkd() is entered; con_active of the session of
+ *                                each observer ('-': no session); l = 1: a large transmission to
+ *                                it is unfinished and younger than 2 s                (wrapped)
  *   U<c>:<mid>                   coap_retransmit() is called for a message that has no retransmission
  *                                left: it is given up                                 (wrapped)
  *   F<c>:<tok>:<mid>             coap_handle_failed_notify(session of c, token) for the node with
  *                                this mid that coap_retransmit gave up                (wrapped)
  *   Z<ca0>,..                    con_active of the sessions when coap_delete_resource is called
- *   X<k>:<c>:<o>:<T>:<code>:<mid>:<tok>:<obs>:<payload>
+ *   X<k>:<c>:<o>:<T>:<code>:<mid>:<tok>:<obs>:<payload>:<block2 NUM.M or ->
  *                                datagram k sent to observer c; o = origin: n = from inside
  *                                coap_check_notify_lkd, g = during coap_delete_resource, r = other;
  *                                T = C/N/A/R; obs = Observe value or '-'
@@ -59,6 +66,7 @@ typedef struct {
   int id;
   unsigned state;      /* application state version: number of changes so far */
   int err;             /* response code the handler uses (0: 2.05) */
+  int big;             /* body length when > 0 (multi-block notifications) */
   int mode;
   coap_resource_t *res;
 } hres_t;
@@ -111,15 +119,28 @@ static void put_hex(const uint8_t *b, size_t n) {
   for (size_t i = 0; i < n; i++) printf("%02x", b[i]);
 }
 
+/* con_active of every observer's session, then '~' and, per session, whether a large (Block2)
+ * transmission to it is unfinished and younger than 2 s (the hold-off test of coap_notify_observers) */
+static void snapshot(void) {
+  for (int c = 0; c < MAXOBS; c++) {
+    coap_session_t *s = sess_of(c);
+    if (c) putchar(',');
+    if (s) printf("%u", (unsigned)s->con_active);
+    else putchar('-');
+  }
+  putchar('~');
+  for (int c = 0; c < MAXOBS; c++) {
+    coap_session_t *s = sess_of(c);
+    int lg = s && s->lg_xmit && s->lg_xmit->last_all_sent == 0 && s->lg_xmit->last_obs &&
+             (s->lg_xmit->last_obs + 2 * COAP_TICKS_PER_SECOND) > vn_now;
+    putchar(lg ? '1' : '0');
+  }
+}
+
 void __wrap_coap_check_notify_lkd(coap_context_t *context) {
   if (context == srv) {
     printf(" S");
-    for (int c = 0; c < MAXOBS; c++) {
-      coap_session_t *s = sess_of(c);
-      if (c) putchar(',');
-      if (s) printf("%u", (unsigned)s->con_active);
-      else putchar('-');
-    }
+    snapshot();
     int o = origin;
     origin = 'n';
     __real_coap_check_notify_lkd(context);
@@ -174,7 +195,7 @@ static void on_send(size_t idx) {
   put_hex(p + 4, tkl);
   size_t i = 4 + tkl;
   unsigned num = 0;
-  long obs = -1;
+  long obs = -1, blk2 = -1;
   while (i < n && p[i] != 0xff) {
     unsigned dl = p[i] >> 4, ln = p[i] & 15;
     i++;
@@ -187,21 +208,39 @@ static void on_send(size_t idx) {
       obs = 0;
       for (unsigned k = 0; k < ln; k++) obs = (obs << 8) | p[i + k];
     }
+    if (num == COAP_OPTION_BLOCK2) {
+      blk2 = 0;
+      for (unsigned k = 0; k < ln; k++) blk2 = (blk2 << 8) | p[i + k];
+    }
     i += ln;
   }
   if (obs >= 0) printf(":%ld:", obs);
   else printf(":-:");
   if (i < n && p[i] == 0xff) put_hex(p + i + 1, n - i - 1);
   else putchar('-');
+  if (blk2 >= 0) printf(":%ld.%ld", blk2 >> 4, (blk2 >> 3) & 1);     /* Block2 NUM.M */
+  else printf(":-");
 }
+
+static void free_body(coap_session_t *s, void *p) { (void)s; free(p); }
 
 static void on_get(coap_resource_t *r, coap_session_t *s, const coap_pdu_t *req,
                    const coap_string_t *q, coap_pdu_t *resp) {
   hres_t *h = (hres_t *)coap_resource_get_userdata(r);
   char body[32];
-  (void)s; (void)req; (void)q;
   coap_pdu_set_code(resp, h->err ? (coap_pdu_code_t)h->err : COAP_RESPONSE_CODE_CONTENT);
   int n = snprintf(body, sizeof(body), "%d.%u", h->id, h->state);
+  if (h->big > n && !h->err) {
+    /* a body of h->big bytes: "<r>.<state>." padded with 'x' (several blocks of 16 bytes when the
+     * request carries Block2 with SZX 0) */
+    uint8_t *d = (uint8_t *)malloc((size_t)h->big);
+    memset(d, 'x', (size_t)h->big);
+    memcpy(d, body, (size_t)n);
+    d[n] = '.';
+    coap_add_data_large_response(r, s, req, resp, q, COAP_MEDIATYPE_TEXT_PLAIN, -1, 0,
+                                 (size_t)h->big, d, free_body, d);
+    return;
+  }
   coap_add_data(resp, (size_t)n, (const uint8_t *)body);
 }
 
@@ -243,7 +282,10 @@ static size_t put_opt(uint8_t *b, unsigned *last, unsigned num, const uint8_t *v
 
 /* fields: c r q tok t [x]; observe = 0 / 1 */
 static void do_request(char **f, int nf, int observe) {
-  int c = atoi(f[0]), r = atoi(f[1]), t = atoi(f[4]);
+  /* t = type (0 CON, 1 NON) + 2 * (number of leading zero bytes of the Observe value);
+   * observe: 0 / 1 = Observe option with that value, < 0 = no Observe option but Block2 with
+   * block number -observe (SZX 0) */
+  int c = atoi(f[0]), r = atoi(f[1]), t = atoi(f[4]) % 2, zeros = (atoi(f[4]) / 2) % 3;
   uint8_t b[256];
   size_t n = 0, tl;
   uint8_t *tok = bytes_of_tok(f[3], &tl);
@@ -261,10 +303,20 @@ static void do_request(char **f, int nf, int observe) {
   int no = 0, fetch = 0;
   uint8_t payload[16];
   size_t paylen = 0;
-  o[no].num = COAP_OPTION_OBSERVE;
-  o[no].v[0] = (uint8_t)observe;
-  o[no].len = observe ? 1 : 0;
-  no++;
+  if (observe >= 0) {
+    o[no].num = COAP_OPTION_OBSERVE;
+    memset(o[no].v, 0, 4);
+    o[no].len = (size_t)zeros;
+    if (observe) o[no].v[o[no].len++] = (uint8_t)observe;
+    no++;
+  } else {
+    unsigned bv = ((unsigned)(-observe)) << 4;        /* NUM, M = 0, SZX = 0 */
+    o[no].num = COAP_OPTION_BLOCK2;
+    o[no].len = 0;
+    if (bv > 0xff) o[no].v[o[no].len++] = (uint8_t)(bv >> 8);
+    o[no].v[o[no].len++] = (uint8_t)bv;
+    no++;
+  }
   char path[8];
   snprintf(path, sizeof(path), "r%d", r);
   o[no].num = COAP_OPTION_URI_PATH;
@@ -441,6 +493,7 @@ static void c11(void) {
   ep = vn_new_server_ep(srv);
   if (!srv || !ep) { puts("ERROR c11 setup"); return; }
   coap_register_event_handler(srv, on_event);
+  coap_context_set_block_mode(srv, COAP_BLOCK_USE_LIBCOAP);
   for (int i = 0; i < MAXRES; i++) {
     memset(&R[i], 0, sizeof(R[i]));
     R[i].id = i;
@@ -477,6 +530,14 @@ static void c11(void) {
     printf(" [%s", opcopy);
     if (!strcmp(op, "reg") && nf >= 6) do_request(f + 1, nf - 1, 0);
     else if (!strcmp(op, "can") && nf >= 6) do_request(f + 1, nf - 1, 1);
+    else if (!strcmp(op, "blk") && nf >= 7) {
+      /* blk:<c>:<r>:<q>:<tok>:<t>:<num> - fetch block num (>= 1) of the current representation */
+      int num = atoi(f[6]);
+      if (num >= 1 && num < 64) do_request(f + 1, 5, -num);
+    } else if (!strcmp(op, "big") && nf >= 3) {
+      int r = atoi(f[1]);
+      if (r >= 0 && r < nres) R[r].big = atoi(f[2]) > 200 ? 200 : atoi(f[2]);
+    }
     else if (!strcmp(op, "redo") && nf >= 2) {
       int c = atoi(f[1]);
       if (c >= 0 && c < MAXOBS && last_req_len[c])
@@ -516,12 +577,7 @@ static void c11(void) {
         int o = origin;
         origin = 'g';
         printf(" Z");
-        for (int c = 0; c < MAXOBS; c++) {
-          coap_session_t *s = sess_of(c);
-          if (c) putchar(',');
-          if (s) printf("%u", (unsigned)s->con_active);
-          else putchar('-');
-        }
+        snapshot();
         coap_delete_resource(srv, R[r].res);
         origin = o;
         mk_resource(r);
